@@ -31,6 +31,7 @@ import (
 	"go/token"
 	"go/types"
 	"path/filepath"
+	"regexp"
 	"sort"
 	"strings"
 )
@@ -59,6 +60,10 @@ type lockSite struct {
 	inline map[string]inlineSpec
 	choose map[string]string // exact condition text -> "then" | "else"
 	rename map[string]string // mutex text -> name
+	// autoInline: calls of methods on this receiver name (same package as the function being
+	// walked) are followed, so that transactions opened in a helper are seen
+	autoInline string
+	autoType   string
 }
 
 // functions that touch a store or a shared in-memory structure: a site must classify every call
@@ -100,13 +105,15 @@ func annInline(fns ...string) map[string]inlineSpec {
 var indexRename = map[string]string{"indexMu[shard]": "indexMu[target]"}
 
 var lockSites = []lockSite{
+	// the accesses inside storage/badger are classified by badgerTxnCall (txn.Set / Delete / Get on a
+	// data key or on a tombstone key); every db.<method> helper is followed
 	{name: "keyvalue.PutData", pkg: "datatype/keyvalue", fn: "Data.PutData",
-		inline: map[string]inlineSpec{"db.Put": {pkg: "storage/badger", fn: "BadgerDB.Put"}},
-		writes: map[string][]string{"BadgerDB.Put/txn.Set(key": {"data"}, "BadgerDB.Put/txn.Delete(tombstoneKey": {"tombstone"}},
+		inline:     map[string]inlineSpec{"db.Put": {pkg: "storage/badger", fn: "BadgerDB.Put"}},
+		autoInline: "db", autoType: "BadgerDB",
 		choose: map[string]string{"ctx.Versioned()": "then"}},
 	{name: "keyvalue.DeleteData", pkg: "datatype/keyvalue", fn: "Data.DeleteData",
-		inline: map[string]inlineSpec{"db.Delete": {pkg: "storage/badger", fn: "BadgerDB.Delete"}},
-		writes: map[string][]string{"BadgerDB.Delete/txn.Delete(key": {"data"}, "BadgerDB.Delete/txn.Set(tombstoneKey": {"tombstone"}},
+		inline:     map[string]inlineSpec{"db.Delete": {pkg: "storage/badger", fn: "BadgerDB.Delete"}},
+		autoInline: "db", autoType: "BadgerDB",
 		choose: map[string]string{"ctx.Versioned()": "then"}},
 	{name: "annotation.StoreElements", pkg: "datatype/annotation", fn: "Data.StoreElements",
 		reads:  annotationReads,
@@ -152,6 +159,9 @@ var lockSites = []lockSite{
 	{name: "neuronjson.storeAndUpdate", pkg: "datatype/neuronjson", fn: "Data.storeAndUpdate",
 		reads:  map[string][]string{"Data.storeAndUpdate/d.getStoreData": {"store"}},
 		writes: map[string][]string{"Data.storeAndUpdate/= mdb.data[bodyid]": {"mem"}, "Data.storeAndUpdate/d.putStoreData": {"store"}},
+	},
+	{name: "neuronjson.DeleteData", pkg: "datatype/neuronjson", fn: "Data.DeleteData",
+		writes: map[string][]string{"Data.DeleteData/delete(mdb.data": {"mem"}, "Data.DeleteData/d.deleteStoreData": {"store"}},
 	},
 	{name: "datastore.newVersion", pkg: "datastore", fn: "repoManager.newVersion",
 		reads:  map[string][]string{"repoManager.newVersion/range node.children": {"children"}},
@@ -446,6 +456,15 @@ func (w *lockWalker) expr(e ast.Expr) []lkEvent {
 				return evs
 			}
 		}
+		// a read-only transaction: X.View(func(txn *badger.Txn) error { ... })
+		if sel, ok := x.Fun.(*ast.SelectorExpr); ok && sel.Sel.Name == "View" && len(x.Args) == 1 {
+			if fl, ok := x.Args[0].(*ast.FuncLit); ok {
+				evs = append(evs, lkEvent{"Lock", "badger.view", w.pos(x, types.ExprString(x.Fun)+" begins a read-only transaction")})
+				evs = append(evs, w.block(fl.Body, false)...)
+				evs = append(evs, lkEvent{"Unlock", "badger.view", w.pos(x, "read-only transaction ends")})
+				return evs
+			}
+		}
 		for _, a := range x.Args {
 			evs = append(evs, w.expr(a)...)
 		}
@@ -495,10 +514,15 @@ func lookupCall(m map[string][]string, fn, name, printed string, occ int) ([]str
 	best := ""
 	var bestV []string
 	for k, v := range m {
-		if !strings.HasPrefix(k, fn+"/") {
+		var pat string
+		switch {
+		case strings.HasPrefix(k, fn+"/"):
+			pat = k[len(fn)+1:]
+		case strings.HasPrefix(k, "*/"):
+			pat = k[2:]
+		default:
 			continue
 		}
-		pat := k[len(fn)+1:]
 		ok := false
 		switch {
 		case strings.Contains(pat, "("):
@@ -531,6 +555,32 @@ func (w *lockWalker) call(c *ast.CallExpr) []lkEvent {
 			}
 		}
 		w.failAt(c, "verifhook.Yield without a literal site name")
+	}
+	// inside storage/badger: accesses of a transaction, by the key they name
+	if strings.HasSuffix(filepath.ToSlash(w.p.dir), "storage/badger") && len(c.Args) >= 1 {
+		kind := ""
+		switch name {
+		case "txn.Set", "txn.Delete", "txn.SetEntry":
+			kind = "Write"
+		case "txn.Get":
+			kind = "Read"
+		}
+		if kind != "" {
+			loc := "data"
+			if strings.Contains(strings.ToLower(types.ExprString(c.Args[0])), "tomb") {
+				loc = "tombstone"
+			}
+			return []lkEvent{{kind, w.locName(loc), w.pos(c, printed)}}
+		}
+	}
+	// helper methods of the same receiver are followed
+	if sel, ok := c.Fun.(*ast.SelectorExpr); ok && w.site.autoInline != "" {
+		if id, ok := sel.X.(*ast.Ident); ok && id.Name == w.site.autoInline {
+			if _, found := w.p.funcs[w.site.autoType+"."+sel.Sel.Name]; found {
+				rel, _ := filepath.Rel(*repo, w.p.dir)
+				return w.inlineCall(c, inlineSpec{pkg: filepath.ToSlash(rel), fn: w.site.autoType + "." + sel.Sel.Name})
+			}
+		}
 	}
 	// inlined callee (longest matching key: plain name or printed-call prefix)
 	bestKey := ""
@@ -701,5 +751,266 @@ func genLocks() {
 		fmt.Fprintf(&b, "] %s.\n\n", coqStr(cover))
 	}
 	fmt.Fprintf(&b, "Definition lock_table : list gsite := [%s].\n", strings.Join(names, "; "))
+	b.WriteString("\n(* every Lock/RLock on an element of an array of mutexes: (function, mutex array, expression selecting\n   the element, with local definitions and one-line helpers expanded and its one variable written _) *)\n")
+	b.WriteString("Definition shard_keys : list (string * string * string) := [\n")
+	uses := collectShardUses()
+	for i, u := range uses {
+		sep := ";"
+		if i == len(uses)-1 {
+			sep = ""
+		}
+		fmt.Fprintf(&b, "  (%s, %s, %s)%s (* %s *)\n", coqStr(u.fn), coqStr(u.family), coqStr(u.key), sep, u.pos)
+	}
+	b.WriteString("].\n")
+	b.WriteString("\n(* storage/badger, versioned path of the single-key mutations: (function, write transactions, read-only\n   transactions), helper methods followed *)\n")
+	b.WriteString("Definition badger_txns : list (string * nat * nat) := [")
+	for i, t := range badgerTxns() {
+		if i > 0 {
+			b.WriteString("; ")
+		}
+		fmt.Fprintf(&b, "(%s, %s, %s)", coqStr(t[0]), t[1], t[2])
+	}
+	b.WriteString("]%nat.\n")
 	writeIfChanged(filepath.Join(*out, "Locks.v"), b.String())
+}
+
+// ---------------------------------------------------------------------------------------------
+// shard keys: every X[key].Lock()/RLock() on an array of mutexes in the packages below, with the
+// expression that selects the mutex resolved through local `name := expr` definitions and through
+// same-package one-line helper functions, and its single variable operand replaced by "_".  All
+// users of one mutex array must select the mutex by the same function of the guarded id, otherwise
+// two critical sections on the same datum do not exclude each other.
+
+var shardPackages = []string{"datatype/labelmap", "datatype/annotation", "datatype/neuronjson", "datastore", "datatype/keyvalue", "storage/badger"}
+
+type shardUse struct{ fn, family, key, pos string }
+
+// singleDef finds the unique `name := rhs` / `name = rhs` / `var name = rhs` of an identifier in a function body.
+func singleDef(body *ast.BlockStmt, name string) ast.Expr {
+	var found ast.Expr
+	n := 0
+	ast.Inspect(body, func(nd ast.Node) bool {
+		switch x := nd.(type) {
+		case *ast.AssignStmt:
+			if len(x.Lhs) == len(x.Rhs) {
+				for i, l := range x.Lhs {
+					if id, ok := l.(*ast.Ident); ok && id.Name == name {
+						found = x.Rhs[i]
+						n++
+					}
+				}
+			}
+		case *ast.ValueSpec:
+			for i, id := range x.Names {
+				if id.Name == name && i < len(x.Values) {
+					found = x.Values[i]
+					n++
+				}
+			}
+		case *ast.RangeStmt:
+			for _, e := range []ast.Expr{x.Key, x.Value} {
+				if id, ok := e.(*ast.Ident); ok && id.Name == name {
+					n += 2 // a loop variable: not a single definition
+				}
+			}
+		}
+		return true
+	})
+	if n == 1 {
+		return found
+	}
+	return nil
+}
+
+// resolveKey prints e with local single definitions and one-line same-package helpers expanded.
+func resolveKey(p *pkgInfo, body *ast.BlockStmt, e ast.Expr, depth int) string {
+	if depth > 4 {
+		return types.ExprString(e)
+	}
+	switch x := e.(type) {
+	case *ast.Ident:
+		if _, isConst := p.consts[x.Name]; isConst {
+			return x.Name
+		}
+		if def := singleDef(body, x.Name); def != nil {
+			return "(" + resolveKey(p, body, def, depth+1) + ")"
+		}
+		return x.Name
+	case *ast.ParenExpr:
+		return "(" + resolveKey(p, body, x.X, depth) + ")"
+	case *ast.BinaryExpr:
+		return resolveKey(p, body, x.X, depth) + " " + x.Op.String() + " " + resolveKey(p, body, x.Y, depth)
+	case *ast.UnaryExpr:
+		return x.Op.String() + resolveKey(p, body, x.X, depth)
+	case *ast.CallExpr:
+		if id, ok := x.Fun.(*ast.Ident); ok {
+			if _, isType := intTypes[id.Name]; isType && len(x.Args) == 1 {
+				return id.Name + "(" + resolveKey(p, body, x.Args[0], depth) + ")"
+			}
+			if fd, ok := p.funcs[id.Name]; ok && fd.Body != nil && len(fd.Body.List) == 1 && fd.Type.Params != nil {
+				if ret, ok := fd.Body.List[0].(*ast.ReturnStmt); ok && len(ret.Results) == 1 {
+					// substitute the arguments for the parameters, textually on the resolved form
+					var params []string
+					for _, f := range fd.Type.Params.List {
+						for _, n := range f.Names {
+							params = append(params, n.Name)
+						}
+					}
+					if len(params) == len(x.Args) {
+						s := substIdents(ret.Results[0], params, func(i int) string { return "(" + resolveKey(p, body, x.Args[i], depth+1) + ")" }, p)
+						return "(" + s + ")"
+					}
+				}
+			}
+		}
+	}
+	return types.ExprString(e)
+}
+
+// substIdents prints e with the identifiers params[i] replaced by arg(i); package constants stay.
+func substIdents(e ast.Expr, params []string, arg func(int) string, p *pkgInfo) string {
+	switch x := e.(type) {
+	case *ast.Ident:
+		for i, n := range params {
+			if n == x.Name {
+				return arg(i)
+			}
+		}
+		return x.Name
+	case *ast.ParenExpr:
+		return "(" + substIdents(x.X, params, arg, p) + ")"
+	case *ast.BinaryExpr:
+		return substIdents(x.X, params, arg, p) + " " + x.Op.String() + " " + substIdents(x.Y, params, arg, p)
+	case *ast.UnaryExpr:
+		return x.Op.String() + substIdents(x.X, params, arg, p)
+	case *ast.CallExpr:
+		if id, ok := x.Fun.(*ast.Ident); ok && len(x.Args) == 1 {
+			return id.Name + "(" + substIdents(x.Args[0], params, arg, p) + ")"
+		}
+	}
+	return types.ExprString(e)
+}
+
+var identRe = regexp.MustCompile(`[A-Za-z_][A-Za-z0-9_]*(\.[A-Za-z_][A-Za-z0-9_]*)*`)
+
+// normaliseKey replaces the single variable operand of a resolved key by "_" and drops
+// redundant parentheses around it; constants, type names and operators stay.
+func normaliseKey(p *pkgInfo, s string) string {
+	vars := map[string]bool{}
+	for _, m := range identRe.FindAllString(s, -1) {
+		if _, isConst := p.consts[m]; isConst {
+			continue
+		}
+		if _, isType := intTypes[m]; isType {
+			continue
+		}
+		vars[m] = true
+	}
+	if len(vars) == 1 {
+		for v := range vars {
+			s = identRe.ReplaceAllStringFunc(s, func(m string) string {
+				if m == v {
+					return "_"
+				}
+				return m
+			})
+		}
+	}
+	for strings.Contains(s, "(_)") {
+		s = strings.ReplaceAll(s, "(_)", "_")
+	}
+	// a fully parenthesised key
+	for len(s) > 2 && s[0] == '(' && matchingParen(s) == len(s)-1 {
+		s = s[1 : len(s)-1]
+	}
+	return strings.Join(strings.Fields(s), " ")
+}
+
+func matchingParen(s string) int {
+	d := 0
+	for i, c := range s {
+		switch c {
+		case '(':
+			d++
+		case ')':
+			d--
+			if d == 0 {
+				return i
+			}
+		}
+	}
+	return -1
+}
+
+func collectShardUses() []shardUse {
+	var uses []shardUse
+	for _, rel := range shardPackages {
+		p := loadPkg(rel)
+		var keys []string
+		for k := range p.funcs {
+			keys = append(keys, k)
+		}
+		sort.Strings(keys)
+		for _, fn := range keys {
+			fd := p.funcs[fn]
+			if fd.Body == nil {
+				continue
+			}
+			ast.Inspect(fd.Body, func(nd ast.Node) bool {
+				c, ok := nd.(*ast.CallExpr)
+				if !ok || len(c.Args) != 0 {
+					return true
+				}
+				sel, ok := c.Fun.(*ast.SelectorExpr)
+				if !ok || (sel.Sel.Name != "Lock" && sel.Sel.Name != "RLock") {
+					return true
+				}
+				ie, ok := sel.X.(*ast.IndexExpr)
+				if !ok {
+					return true
+				}
+				key := normaliseKey(p, resolveKey(p, fd.Body, ie.Index, 0))
+				pos := p.fset.Position(c.Pos())
+				uses = append(uses, shardUse{fn: rel + " " + fn, family: rel + " " + types.ExprString(ie.X), key: key,
+					pos: fmt.Sprintf("%s:%d", filepath.Base(pos.Filename), pos.Line)})
+				return true
+			})
+		}
+	}
+	sort.SliceStable(uses, func(i, j int) bool {
+		if uses[i].family != uses[j].family {
+			return uses[i].family < uses[j].family
+		}
+		return uses[i].pos < uses[j].pos
+	})
+	return uses
+}
+
+// badgerTxns: write and read-only transactions on the versioned path of the single-key mutations
+func badgerTxns() [][3]string {
+	var out [][3]string
+	for _, fn := range []string{"BadgerDB.Put", "BadgerDB.Delete"} {
+		site := &lockSite{name: "storage/badger " + fn, pkg: "storage/badger", fn: fn, autoInline: "db", autoType: "BadgerDB",
+			choose: map[string]string{"ctx.Versioned()": "then"}}
+		p := loadPkg(site.pkg)
+		fd, ok := p.funcs[fn]
+		if !ok || fd.Body == nil {
+			fail("gen_locks: %s not found in storage/badger", fn)
+		}
+		w := &lockWalker{site: site, p: p, fn: fn, locMap: map[string]string{}, rename: map[string]string{}, occ: map[string]int{},
+			stack: []string{site.pkg + "." + fn}}
+		evs := w.block(fd.Body, true)
+		evs = append(evs, w.defers...)
+		wr, ro := 0, 0
+		for _, e := range evs {
+			if e.kind == "Lock" && e.arg == "badger.txn" {
+				wr++
+			}
+			if e.kind == "Lock" && e.arg == "badger.view" {
+				ro++
+			}
+		}
+		out = append(out, [3]string{fn, fmt.Sprint(wr), fmt.Sprint(ro)})
+	}
+	return out
 }
